@@ -6,6 +6,7 @@ EXTENDS Integers, Sequences, FiniteSets, TLC, Json
 Q   == INSTANCE Sql
 Sem == INSTANCE Semantics
 KF  == INSTANCE KnownFindings
+RM  == INSTANCE Render
 
 CONSTANTS ResFile, VerdictFile, Prop, Shards
 Lines == ndJsonDeserialize(ResFile)
@@ -103,21 +104,35 @@ C02one(c, r, mode) == IF r.out # "ok" \/ Confined(c, r) THEN <<>>
                       ELSE <<Fail("C02", c, mode \o " SQL is not one confined expression over the query's own fields and values", KfC02(c, r))>>
 C02(c) == C02one(c, c.inline, "inline") \o C02one(c, c.param, "parameterized")
 
+\* conformance of the driver model (Render.tla) on the generated leaf forms (ASCII texts; the adversarial family carries
+\* bytes the JSON trace cannot show exactly): predicted text and parameters = observed ones, else DRIFT (not a verdict)
+ParamsSame(mp, ps) == Len(mp) = Len(ps) /\ \A i \in DOMAIN ps : mp[i].ty = ps[i].ty /\ mp[i].v = ps[i].text
+RenderSame(m, r) == ~m.known \/ (m.ok = (r.out = "ok") /\ (m.ok => m.s = r.text /\ ParamsSame(m.params, r.params)))
+Modelled(c) == c.kind = "leaf" /\ c.parse = "ok"
+RenderConf(c) == ~Modelled(c) \/ (RenderSame(RM!Inline(c.tree), c.inline) /\ RenderSame(RM!Param(c.tree), c.param))
+RenderDrift(c) == IF RenderConf(c) THEN 0
+                  ELSE IF PrintT("RENDER-DRIFT " \o ToJson([q |-> c.q, model |-> RM!Inline(c.tree).s, model_param |-> RM!Param(c.tree).s,
+                                                            code |-> c.inline.text, code_param |-> c.param.text])) THEN 1 ELSE 0
+RenderPredicted(c) == IF Modelled(c) /\ RM!Inline(c.tree).known THEN 1 ELSE 0
+
 Judge(c) == CASE Prop = "C03" -> C03(c) [] Prop = "C04" -> C04(c) [] Prop = "C02" -> C02(c)
 
-VARIABLES sh, n, last, fails, kfs, nfail, nkf, judged
-vars == <<sh, n, last, fails, kfs, nfail, nkf, judged>>
+VARIABLES sh, n, last, fails, kfs, nfail, nkf, judged, nrdrift, npred
+vars == <<sh, n, last, fails, kfs, nfail, nkf, judged, nrdrift, npred>>
 Open(f)  == SelectSeq(f, LAMBDA v : v.kf = "none")
 Known(f) == SelectSeq(f, LAMBDA v : v.kf # "none")
-Init == sh \in 0..(Shards - 1) /\ n = sh /\ last = <<>> /\ fails = <<>> /\ kfs = <<>> /\ nfail = 0 /\ nkf = 0 /\ judged = 0
+Init == sh \in 0..(Shards - 1) /\ n = sh /\ last = <<>> /\ fails = <<>> /\ kfs = <<>> /\ nfail = 0 /\ nkf = 0 /\ judged = 0 /\ nrdrift = 0 /\ npred = 0
 Next == /\ n < Len(Lines) + Shards /\ n' = n + Shards /\ UNCHANGED sh
         /\ last' = IF n < Len(Lines) THEN Judge(Lines[n + 1]) ELSE <<>>
         /\ fails' = IF Len(fails) >= 200 THEN fails ELSE fails \o Open(last)
         /\ kfs' = IF Len(kfs) >= 200 THEN kfs ELSE kfs \o Known(last)
         /\ nfail' = nfail + Len(Open(last)) /\ nkf' = nkf + Len(Known(last))
         /\ judged' = judged + (IF n < Len(Lines) THEN 1 ELSE 0)
+        /\ nrdrift' = nrdrift + (IF n < Len(Lines) THEN RenderDrift(Lines[n + 1]) ELSE 0)
+        /\ npred' = npred + (IF n < Len(Lines) THEN RenderPredicted(Lines[n + 1]) ELSE 0)
 Spec == Init /\ [][Next]_vars
 Report == n >= Len(Lines) + Shards =>
-            /\ PrintT("JUDGED " \o ToJson([prop |-> Prop, shard |-> sh, judged |-> judged, failures |-> nfail, known |-> nkf]))
+            /\ PrintT("JUDGED " \o ToJson([prop |-> Prop, shard |-> sh, judged |-> judged, failures |-> nfail, known |-> nkf,
+                                                render_drift |-> nrdrift, render_predicted |-> npred]))
             /\ ndJsonSerialize(VerdictFile \o "." \o ToString(sh), fails \o kfs)
 =========================================================================
